@@ -11,6 +11,14 @@
 (* generations, 20-byte entries, W/Index/Length consistency, startxref,     *)
 (* Prev, Size).  The result carries the View: for every object number the   *)
 (* object of the newest revision that defines it, plus the newest trailer.  *)
+(*                                                                          *)
+(* Free entries (7.5.4 `f`, 7.5.8.3 type 0) delete: from the revision whose  *)
+(* section marks a number free the view has no object with that number,     *)
+(* until a later revision defines it again.  Hybrid-reference files          *)
+(* (7.5.8.4): a table section whose trailer has XRefStm is looked up in the  *)
+(* order  in-use entries of the table, entries of the cross-reference        *)
+(* stream XRefStm points at, free entries of the table, and only then Prev - *)
+(* an object the table marks free and the stream lists is visible.           *)
 (***************************************************************************)
 EXTENDS Syntax
 
@@ -160,8 +168,39 @@ FixStream(body, o, allobjs) ==
                  THEN [ok |-> TRUE, val |-> [o.val EXCEPT !.w = SubSeq(body, o.rs, o.rs + L - 1)]]
                  ELSE [ok |-> FALSE, val |-> o.val]
 
-\* The checks of one revision.  Returns [ok, err, entries (num -> [gen, val] for in-use objects
-\* stored plainly), trailer, xrefobj (number of the XRef stream object or 0)]
+\* The entries of a cross-reference stream object (7.5.8.2): W, Index (default [0 Size]), decoded rows.
+\* [ok, err, ents (sequence of [num, type, f2, f3])]
+XrefStreamOf(xo) ==
+    LET d == xo.val.v
+        w == IF Has(d, NameW) THEN SmallNats(d[NameW]) ELSE <<>>
+        size == IF Has(d, NameSize) /\ IntSmall(d[NameSize]) THEN IntVal(d[NameSize]) ELSE 0
+        index == IF Has(d, NameIndex) THEN SmallNats(d[NameIndex]) ELSE <<0, size>>
+    IN IF Len(w) # 3 \/ Len(index) % 2 # 0 \/ index = <<>> THEN [ok |-> FALSE, err |-> "XRef stream W/Index malformed", ents |-> <<>>]
+       \* totality on adversarial input: widths above 8 bytes or absurd counts are rejected, not computed with
+       ELSE IF (\E i \in 1..3 : w[i] > 8) \/ (\E i \in 1..Len(index) : index[i] > 1000000) THEN [ok |-> FALSE, err |-> "XRef stream W/Index out of range", ents |-> <<>>]
+       ELSE IF ~StructStreamData(xo.val).ok THEN [ok |-> FALSE, err |-> "XRef stream filter cannot be decoded (only stored-block FlateDecode with PNG predictors is specified)", ents |-> <<>>]
+       ELSE LET rowlen == w[1] + w[2] + w[3]
+                xdata == StructStreamData(xo.val).data
+                count == FoldLeft(LAMBDA acc, i : acc + index[2 * i], 0, [i \in 1..(Len(index) \div 2) |-> i])
+            IN IF Len(xdata) # count * rowlen THEN [ok |-> FALSE, err |-> "XRef stream Length is not (sum of Index counts) x (W1+W2+W3)", ents |-> <<>>]
+               ELSE [ok |-> TRUE, err |-> "", ents |-> XrefStreamEntries(xdata, w, index)]
+
+\* free entries of a section as [num, next, gen]: next = the link field (object number of the next free entry),
+\* gen = the generation the number gets when it is used again; -1 where the field is not a small number
+TableFree(ents) ==
+    LET f == SelectSeq(ents, LAMBDA e : ~e.inuse)
+    IN [i \in 1..Len(f) |-> [num |-> f[i].num, gen |-> f[i].gen,
+                             next |-> IF DigitsSmall(StripLeadingZeros(f[i].off)) THEN DigitsVal(f[i].off) ELSE 0 - 1]]
+StreamFree(ents) ==
+    LET f == SelectSeq(ents, LAMBDA e : e.type = 0)
+    IN [i \in 1..Len(f) |-> [num |-> f[i].num, gen |-> f[i].f3, next |-> f[i].f2]]
+NumsOf(es) == {es[i].num : i \in 1..Len(es)}
+
+\* The checks of one revision.  Returns [ok, err, trailer, xrefobj (number of the XRef stream object or 0),
+\* nums (every number the section has an entry for), comp (type-2 entries), and - for the meaning of free
+\* entries and of hybrid-reference sections - inuse (numbers the section lists in use), fl (its free entries
+\* [num, next, gen] for numbers it does not list in use), freed (their numbers, without 0), hybrid, hidden
+\* (numbers in use only through the XRefStm stream)]
 CheckRevision(body, rev, allobjs) ==
     LET objs == rev.objs IN
     IF rev.kind = "table" THEN
@@ -169,45 +208,68 @@ CheckRevision(body, rev, allobjs) ==
         IF ~pt.ok THEN [ok |-> FALSE, err |-> pt.err]
         ELSE LET ents == pt.ents
                  inuse == SelectSeq(ents, LAMBDA e : e.inuse)
+                 hyb == Has(rev.trailer, NameXRefStm)
              IN IF ~(\A i \in 1..Len(ents) : Entry20(body, ents[i])) THEN [ok |-> FALSE, err |-> "xref entry is not a well-formed 20-byte entry"]
                 ELSE IF ~(IntSmall(rev.sx) /\ IntVal(rev.sx) = rev.xoff) THEN [ok |-> FALSE, err |-> "startxref does not hold the offset of the xref keyword"]
                 ELSE IF ~(\A i \in 1..Len(inuse) : DigitsSmall(StripLeadingZeros(inuse[i].off))
                            /\ LET k == ObjAt(objs, DigitsVal(inuse[i].off)) IN
                               k # 0 /\ objs[k].num = inuse[i].num /\ objs[k].gen = inuse[i].gen)
                      THEN [ok |-> FALSE, err |-> "in-use xref entry does not point at the n g obj header of that object"]
-                ELSE IF Len(inuse) # Len(objs) \/ Cardinality({inuse[i].num : i \in 1..Len(inuse)}) # Len(inuse)
+                ELSE IF ~hyb THEN
+                     IF Len(inuse) # Len(objs) \/ Cardinality({inuse[i].num : i \in 1..Len(inuse)}) # Len(inuse)
                      THEN [ok |-> FALSE, err |-> "objects in the body and in-use xref entries are not in one-to-one correspondence"]
-                ELSE [ok |-> TRUE, err |-> "", trailer |-> rev.trailer, xrefobj |-> 0,
-                      nums |-> {ents[i].num : i \in 1..Len(ents)},
-                      comp |-> <<>>]
+                     ELSE [ok |-> TRUE, err |-> "", trailer |-> rev.trailer, xrefobj |-> 0,
+                           nums |-> {ents[i].num : i \in 1..Len(ents)},
+                           comp |-> <<>>,
+                           inuse |-> NumsOf(inuse), fl |-> SelectSeq(TableFree(ents), LAMBDA f : f.num \notin NumsOf(inuse)),
+                           freed |-> (NumsOf(TableFree(ents)) \ NumsOf(inuse)) \ {0},
+                           hybrid |-> FALSE, hidden |-> {}]
+                \* hybrid-reference section (7.5.8.4): XRefStm is the offset of a cross-reference stream of this revision
+                ELSE LET xk == IF IntSmall(rev.trailer[NameXRefStm]) THEN ObjAt(objs, IntVal(rev.trailer[NameXRefStm])) ELSE 0 IN
+                     IF xk = 0 \/ ~(objs[xk].val.k = "stream" /\ TypeNameOf(objs[xk].val) = NameXRef)
+                     THEN [ok |-> FALSE, err |-> "XRefStm does not hold the offset of a cross-reference stream of this revision"]
+                     ELSE LET xs == XrefStreamOf(objs[xk]) IN
+                     IF ~xs.ok THEN [ok |-> FALSE, err |-> xs.err]
+                     ELSE LET t1 == SelectSeq(xs.ents, LAMBDA e : e.type = 1)
+                              t2 == SelectSeq(xs.ents, LAMBDA e : e.type = 2)
+                              tin == NumsOf(inuse)
+                              allin == tin \cup NumsOf(t1) \cup NumsOf(t2)
+                              frees == SelectSeq(TableFree(ents) \o StreamFree(xs.ents), LAMBDA f : f.num \notin allin)
+                          IN IF ~(\A i \in 1..Len(t1) : LET k == ObjAt(objs, t1[i].f2) IN
+                                     k # 0 /\ objs[k].num = t1[i].num /\ objs[k].gen = t1[i].f3)
+                             THEN [ok |-> FALSE, err |-> "type-1 XRef stream entry does not point at the n g obj header of that object"]
+                             ELSE IF Len(inuse) + Len(t1) # Len(objs) \/ Cardinality(tin \cup NumsOf(t1)) # Len(objs)
+                                  THEN [ok |-> FALSE, err |-> "objects in the body and in-use entries of the table and its XRefStm are not in one-to-one correspondence"]
+                             ELSE [ok |-> TRUE, err |-> "", trailer |-> rev.trailer, xrefobj |-> objs[xk].num,
+                                   nums |-> {ents[i].num : i \in 1..Len(ents)} \cup NumsOf(xs.ents),
+                                   \* the table is searched first: a type-2 entry for a number the table lists in use is never reached
+                                   comp |-> SelectSeq(t2, LAMBDA e : e.num \notin tin),
+                                   inuse |-> allin, fl |-> frees, freed |-> NumsOf(frees) \ {0},
+                                   hybrid |-> TRUE, hidden |-> (allin \ tin) \ {objs[xk].num}]
     ELSE IF rev.kind = "stream" THEN
         IF objs = <<>> THEN [ok |-> FALSE, err |-> "revision without cross-reference section"]
         ELSE LET xo == objs[Len(objs)] IN
         IF ~(xo.val.k = "stream" /\ TypeNameOf(xo.val) = NameXRef) THEN [ok |-> FALSE, err |-> "last object before startxref is not an XRef stream"]
         ELSE IF ~(IntSmall(rev.sx) /\ IntVal(rev.sx) = xo.s - 1) THEN [ok |-> FALSE, err |-> "startxref does not hold the offset of the XRef stream object"]
-        ELSE LET d == xo.val.v
-                 w == IF Has(d, NameW) THEN SmallNats(d[NameW]) ELSE <<>>
-                 size == IF Has(d, NameSize) /\ IntSmall(d[NameSize]) THEN IntVal(d[NameSize]) ELSE 0
-                 index == IF Has(d, NameIndex) THEN SmallNats(d[NameIndex]) ELSE <<0, size>>
-             IN IF Len(w) # 3 \/ Len(index) % 2 # 0 \/ index = <<>> THEN [ok |-> FALSE, err |-> "XRef stream W/Index malformed"]
-                \* totality on adversarial input: widths above 8 bytes or absurd counts are rejected, not computed with
-                ELSE IF (\E i \in 1..3 : w[i] > 8) \/ (\E i \in 1..Len(index) : index[i] > 1000000) THEN [ok |-> FALSE, err |-> "XRef stream W/Index out of range"]
-                ELSE IF ~StructStreamData(xo.val).ok THEN [ok |-> FALSE, err |-> "XRef stream filter cannot be decoded (only stored-block FlateDecode with PNG predictors is specified)"]
-                ELSE LET rowlen == w[1] + w[2] + w[3]
-                         xdata == StructStreamData(xo.val).data
-                         count == FoldLeft(LAMBDA acc, i : acc + index[2 * i], 0, [i \in 1..(Len(index) \div 2) |-> i])
-                     IN IF Len(xdata) # count * rowlen THEN [ok |-> FALSE, err |-> "XRef stream Length is not (sum of Index counts) x (W1+W2+W3)"]
-                        ELSE LET ents == XrefStreamEntries(xdata, w, index)
-                                 t1 == SelectSeq(ents, LAMBDA e : e.type = 1)
-                             IN IF ~(\A i \in 1..Len(t1) : LET k == ObjAt(objs, t1[i].f2) IN
-                                        k # 0 /\ objs[k].num = t1[i].num /\ objs[k].gen = t1[i].f3)
-                                THEN [ok |-> FALSE, err |-> "type-1 XRef stream entry does not point at the n g obj header of that object"]
-                                ELSE IF ~(\E i \in 1..Len(t1) : t1[i].num = xo.num) THEN [ok |-> FALSE, err |-> "XRef stream has no entry for itself"]
-                                ELSE IF Len(t1) # Len(objs) \/ Cardinality({t1[i].num : i \in 1..Len(t1)}) # Len(t1)
-                                     THEN [ok |-> FALSE, err |-> "objects in the body and type-1 entries are not in one-to-one correspondence"]
-                                ELSE [ok |-> TRUE, err |-> "", trailer |-> d, xrefobj |-> xo.num,
-                                      nums |-> {ents[i].num : i \in 1..Len(ents)},
-                                      comp |-> SelectSeq(ents, LAMBDA e : e.type = 2)]
+        ELSE LET xs == XrefStreamOf(xo) IN
+             IF ~xs.ok THEN [ok |-> FALSE, err |-> xs.err]
+             ELSE LET d == xo.val.v
+                      ents == xs.ents
+                      t1 == SelectSeq(ents, LAMBDA e : e.type = 1)
+                      t2 == SelectSeq(ents, LAMBDA e : e.type = 2)
+                  IN IF ~(\A i \in 1..Len(t1) : LET k == ObjAt(objs, t1[i].f2) IN
+                             k # 0 /\ objs[k].num = t1[i].num /\ objs[k].gen = t1[i].f3)
+                     THEN [ok |-> FALSE, err |-> "type-1 XRef stream entry does not point at the n g obj header of that object"]
+                     ELSE IF ~(\E i \in 1..Len(t1) : t1[i].num = xo.num) THEN [ok |-> FALSE, err |-> "XRef stream has no entry for itself"]
+                     ELSE IF Len(t1) # Len(objs) \/ Cardinality({t1[i].num : i \in 1..Len(t1)}) # Len(t1)
+                          THEN [ok |-> FALSE, err |-> "objects in the body and type-1 entries are not in one-to-one correspondence"]
+                     ELSE [ok |-> TRUE, err |-> "", trailer |-> d, xrefobj |-> xo.num,
+                           nums |-> {ents[i].num : i \in 1..Len(ents)},
+                           comp |-> t2,
+                           inuse |-> NumsOf(t1) \cup NumsOf(t2),
+                           fl |-> SelectSeq(StreamFree(ents), LAMBDA f : f.num \notin NumsOf(t1) \cup NumsOf(t2)),
+                           freed |-> ((NumsOf(StreamFree(ents)) \ NumsOf(t1)) \ NumsOf(t2)) \ {0},
+                           hybrid |-> FALSE, hidden |-> {}]
     ELSE [ok |-> FALSE, err |-> "revision without cross-reference section"]
 
 -----------------------------------------------------------------------------
@@ -298,10 +360,12 @@ RdFileV(bytes, vb) ==
                                        ELSE fixed1[i]]
               badfix == SelectInSeq(fixed, LAMBDA f : ~f.ok)
               \* newest definition wins: revisions in order; within a revision plain objects, then compressed ones
+              \* ... and the numbers the section marks free (without listing them in use) denote no object from here on
               viewOfRev(acc, r) ==
                   LET a1 == FoldLeft(LAMBDA a, i : MapPut(a, allobjs[i].num, [gen |-> allobjs[i].gen, val |-> fixed[i].val]),
                                      acc, [k \in 1..Len(revs[r].objs) |-> base[r] + k])
-                  IN FoldLeft(LAMBDA a, e : MapPut(a, e.num, [gen |-> 0, val |-> compVal(r, e)]), a1, chk[r].comp)
+                      a2 == FoldLeft(LAMBDA a, e : MapPut(a, e.num, [gen |-> 0, val |-> compVal(r, e)]), a1, chk[r].comp)
+                  IN IF chk[r].freed \cap DOMAIN a2 = {} THEN a2 ELSE MapDel(a2, chk[r].freed)
               view == IF badcomp THEN EmptyMap ELSE FoldLeft(viewOfRev, EmptyMap, [r \in 1..Len(revs) |-> r])
               \* every definition of every number in file order (classifier input): <<[val, where]>>, where = 0 for a
               \* plain object, the container number for a compressed one
@@ -329,7 +393,47 @@ RdFileV(bytes, vb) ==
                    xrefobjs |-> {chk[i].xrefobj : i \in 1..Len(revs)} \ {0},
                    kind |-> revs[Len(revs)].kind,
                    view |-> view,
-                   hist |-> hist]
+                   hist |-> hist,
+                   \* per revision: what its cross-reference section says about free and hidden numbers (see FreeState ff.)
+                   secs |-> [r \in 1..Len(revs) |-> [inuse |-> chk[r].inuse, fl |-> chk[r].fl, freed |-> chk[r].freed,
+                                                     hybrid |-> chk[r].hybrid, hidden |-> chk[r].hidden]]]
 
 RdFile(bytes) == RdFileV(bytes, FALSE)
+
+-----------------------------------------------------------------------------
+(* Free entries and hidden objects of a file that was read (rd = RdFile(bytes), rd.ok) *)
+
+\* the newest entry of every number: [free |-> FALSE] or [free |-> TRUE, next, gen]
+FreeState(rd) ==
+    FoldLeft(LAMBDA acc, sec :
+                LET a1 == [n \in DOMAIN acc \cup sec.inuse |-> IF n \in sec.inuse THEN [free |-> FALSE, next |-> 0, gen |-> 0] ELSE acc[n]]
+                IN FoldLeft(LAMBDA a, f : MapPut(a, f.num, [free |-> TRUE, next |-> f.next, gen |-> f.gen]), a1, sec.fl),
+             EmptyMap, rd.secs)
+
+\* numbers that had an object in an earlier revision and now have none, with the generation of their next use
+Freed(rd) ==
+    LET st == FreeState(rd)
+        gone == {n \in (DOMAIN rd.hist \ DOMAIN rd.view) \ rd.xrefobjs : n \in DOMAIN st /\ st[n].free}
+    IN [n \in gone |-> st[n].gen]
+
+\* the linked list of free entries (7.5.4): from object 0 along the link fields until it is back at 0;
+\* [closed (it came back to 0 over free entries only), list (the numbers met, without 0)]
+FreeList(rd) ==
+    LET st == FreeState(rd)
+        step(acc, i) ==
+            IF acc.stop THEN acc
+            ELSE IF ~(acc.cur \in DOMAIN st /\ st[acc.cur].free) \/ acc.cur \in {acc.list[j] : j \in 1..Len(acc.list)}
+                 THEN [acc EXCEPT !.stop = TRUE, !.closed = FALSE]
+            ELSE LET nx == st[acc.cur].next
+                     l2 == IF acc.cur = 0 THEN acc.list ELSE Append(acc.list, acc.cur)
+                 IN IF nx = 0 THEN [cur |-> 0, list |-> l2, stop |-> TRUE, closed |-> TRUE]
+                    ELSE [cur |-> nx, list |-> l2, stop |-> FALSE, closed |-> FALSE]
+        w == FoldLeft(step, [cur |-> 0, list |-> <<>>, stop |-> FALSE, closed |-> FALSE], [i \in 1..(Cardinality(DOMAIN st) + 1) |-> i])
+    IN [closed |-> w.closed, list |-> w.list]
+
+\* numbers of the view whose newest definition is in use only through the XRefStm stream of a hybrid-reference
+\* section (a reader that knows cross-reference tables only does not see them)
+Hidden(rd) ==
+    FoldLeft(LAMBDA acc, sec : ((acc \ sec.inuse) \ sec.freed) \cup sec.hidden, {}, rd.secs) \cap DOMAIN rd.view
+HybridRevs(rd) == {r \in 1..Len(rd.secs) : rd.secs[r].hybrid}
 =============================================================================
